@@ -1,11 +1,15 @@
 //go:build verif
 
-// "rrstress": dispatches racing with membership changes made from another goroutine, against the
+// "rrstress": dispatches racing with membership changes made from other goroutines, against the
 // real RoundRobinBackend with backend doubles that never fail.  Supporting evidence for the
 // schedule half of C05 (theorem C05_schedules_safe is about ALL interleavings of the lock
 // regions; this run exposes the real code to many of them): with at least one backend
 // registered at every instant, no dispatch may panic or fail, and every dispatch is delivered
-// exactly once.
+// exactly once; when the membership threads have finished (each leaves the set as it found it)
+// the rotation holds exactly the permanent backends and spreads dispatches evenly over them.
+//
+//   rrstress: durMs perm churn senders [mthreads]
+//     -> sends errors panics delivered firstPanic finalRotation evenAfter
 package main
 
 import (
@@ -19,24 +23,44 @@ import (
 type countBackend struct {
 	addr string
 	n    *int64
+	own  int64
 }
 
-func (c *countBackend) Send(msg *Message) error { atomic.AddInt64(c.n, 1); return nil }
-func (c *countBackend) GetAddress() string      { return c.addr }
-func (c *countBackend) Close()                  {}
+func (c *countBackend) Send(msg *Message) error {
+	atomic.AddInt64(c.n, 1)
+	atomic.AddInt64(&c.own, 1)
+	return nil
+}
+func (c *countBackend) GetAddress() string { return c.addr }
+
+// closing a real backend (a socket) takes time: give other threads a chance to run meanwhile
+func (c *countBackend) Close() { runtime.Gosched() }
 
 func init() {
 	components["rrstress"] = func(k *toks, o *out) {
 		durMs, perm, churn, senders := k.int(), k.int(), k.int(), k.int()
-		if k.bad || perm < 1 || churn < 1 || senders < 1 {
+		mthreads := 1
+		if k.rest() > 0 {
+			mthreads = k.int()
+		}
+		if k.bad || perm < 1 || churn < 1 || senders < 1 || mthreads < 1 {
 			k.bad = true
 			return
 		}
 		rb := NewRoundRobinBackend()
 		var delivered, sends, errs, panics int64
 		var firstPanic atomic.Value
+		var perms []*countBackend
 		for i := 0; i < perm; i++ {
-			rb.AddBackend(&countBackend{fmt.Sprintf("10.0.0.%d:5060", i+1), &delivered})
+			b := &countBackend{addr: fmt.Sprintf("10.0.0.%d:5060", i+1), n: &delivered}
+			perms = append(perms, b)
+			rb.AddBackend(b)
+		}
+		notePanic := func() {
+			if r := recover(); r != nil {
+				atomic.AddInt64(&panics, 1)
+				firstPanic.CompareAndSwap(nil, fmt.Sprint(r))
+			}
 		}
 		stop := make(chan struct{})
 		var wg sync.WaitGroup
@@ -51,12 +75,7 @@ func init() {
 					default:
 					}
 					func() {
-						defer func() {
-							if r := recover(); r != nil {
-								atomic.AddInt64(&panics, 1)
-								firstPanic.CompareAndSwap(nil, fmt.Sprint(r))
-							}
-						}()
+						defer notePanic()
 						atomic.AddInt64(&sends, 1)
 						if err := rb.Send(nil); err != nil {
 							atomic.AddInt64(&errs, 1)
@@ -65,32 +84,40 @@ func init() {
 				}
 			}()
 		}
-		wg.Add(1)
-		go func() {
-			defer wg.Done()
-			i := 0
-			for {
-				select {
-				case <-stop:
-					return
-				default:
-				}
-				// grow by up to [churn] backends, then shrink back to the permanent ones
-				for j := 0; j < churn; j++ {
-					rb.AddBackend(&countBackend{fmt.Sprintf("10.0.1.%d:5060", j+1), &delivered})
-					if i%3 == 0 {
-						runtime.Gosched()
+		for t := 0; t < mthreads; t++ {
+			wg.Add(1)
+			go func(t int) {
+				defer wg.Done()
+				i := 0
+				for {
+					select {
+					case <-stop:
+						return
+					default:
 					}
-				}
-				for j := churn - 1; j >= 0; j-- {
-					rb.RemoveBackend(fmt.Sprintf("10.0.1.%d:5060", j+1))
-					if i%2 == 0 {
-						runtime.Gosched()
+					// grow by up to [churn] backends, then shrink back to the permanent ones
+					func() {
+						defer notePanic()
+						for j := 0; j < churn; j++ {
+							rb.AddBackend(&countBackend{addr: fmt.Sprintf("10.0.%d.%d:5060", t+1, j+1), n: &delivered})
+							if i%3 == 0 {
+								runtime.Gosched()
+							}
+						}
+					}()
+					for j := churn - 1; j >= 0; j-- {
+						func() {
+							defer notePanic()
+							rb.RemoveBackend(fmt.Sprintf("10.0.%d.%d:5060", t+1, j+1))
+						}()
+						if i%2 == 0 {
+							runtime.Gosched()
+						}
 					}
+					i++
 				}
-				i++
-			}
-		}()
+			}(t)
+		}
 		time.Sleep(time.Duration(durMs) * time.Millisecond)
 		close(stop)
 		wg.Wait()
@@ -103,5 +130,30 @@ func init() {
 		} else {
 			o.s("")
 		}
+		// quiescent again: the rotation is the permanent set, and it rotates evenly
+		o.s(rb.GetAddress())
+		before := make([]int64, len(perms))
+		for i, b := range perms {
+			before[i] = atomic.LoadInt64(&b.own)
+		}
+		even := true
+		func() {
+			defer func() {
+				if recover() != nil {
+					even = false
+				}
+			}()
+			for i := 0; i < 4*perm; i++ {
+				if rb.Send(nil) != nil {
+					even = false
+				}
+			}
+		}()
+		for i, b := range perms {
+			if atomic.LoadInt64(&b.own)-before[i] != 4 {
+				even = false
+			}
+		}
+		o.bool(even)
 	}
 }
